@@ -444,9 +444,18 @@ impl Corpus {
       let t = format!(
         "class {cn} {{\n  function each(i: int, f: (int) -> unit): unit =\n    if i >= {b1} {{  }} else {{\n      f(i * {m1} + {a1});\n      {cn}.each(i + {s1}, f)\n    }}\n\n  function fold(i: int, acc: int, f: (int, int) -> int): int =\n    if i >= {b2} {{ acc }} else {{ {cn}.fold(i + 1, f(acc, i * {m2} + 5), f) }}\n\n  function sum(i: int, acc: int): int =\n    if i >= {b3} {{ acc }} else {{ {cn}.sum(i + {s3}, acc + i * {m1} + {l}) }}\n\n  function run(seed: int): unit = {{\n    {cn}.each(seed, (x) -> Process.println(Str.fromInt(x)));\n    Process.println(Str.fromInt({cn}.fold(seed, {l}, (a, b) -> a + b * 2)));\n    Process.println(Str.fromInt({cn}.sum(seed, 1)));\n  }}\n}}\n\n"
       );
+      // loops with several loop-carried values that feed each other (a sliding pair, a rotation):
+      // the back ends assign loop variables one after another, so the order in which the optimizer
+      // lists them is part of the program's meaning
+      let (c1, c2) = (rng.range(2, 4), rng.range(1, 5));
+      let sliding = format!(
+        "class {cn}Sliding {{\n  function fib(n: int, a: int, b: int): int =\n    if n <= 0 {{ a }} else {{ {cn}Sliding.fib(n - 1, b, a + b) }}\n\n  function pell(k: int, previous: int, current: int): int =\n    if k <= 0 {{ previous }} else {{ {cn}Sliding.pell(k - 1, current, {c1} * current + previous) }}\n\n  function rotate(n: int, a: int, b: int, c: int, label: Str): Str =\n    if n <= 0 {{ label :: Str.fromInt(a * 100 + b * 10 + c) }} else {{ {cn}Sliding.rotate(n - 1, b, c, a + {c2}, label) }}\n\n  function run(seed: int): unit = {{\n    let n = {cn}.sum(seed, 1) % 5 + 6;\n    Process.println(Str.fromInt({cn}Sliding.fib(n, 0, 1)));\n    Process.println(Str.fromInt({cn}Sliding.pell(n, 0, 1)));\n    Process.println({cn}Sliding.rotate(n, 1, 2, 3, \"r\"));\n    Process.println(Str.fromInt({cn}Sliding.fib(10, 0, 1)));\n  }}\n}}\n\n"
+      );
+      let t = format!("{t}{sliding}");
       let m = mod_names[mi].clone();
       sources.get_mut(&m).unwrap().push_str(&t);
-      loop_classes.push((mi, cn));
+      loop_classes.push((mi, cn.clone()));
+      loop_classes.push((mi, format!("{cn}Sliding")));
     }
     // closure classes: lambdas that capture several variables of different types (closure context
     // structs are synthesized per captured-type list; the capture set is a hash map)
